@@ -143,6 +143,9 @@ def dedent(body):
 # ---------------------------------------------------------------- rewrite rules
 R1 = re.compile(r"^(\s*)for &(\w+) in (\w+) \{\s*$")
 R2 = re.compile(r"^(\s*)\(([\w, ]+)\) = \(([\w, ]+)\);\s*$")
+R5A = re.compile(r"^(\s*)let (\w+) = (.+)\?;\s*$")
+R5B = re.compile(r"^(\s*)Ok\((.+)\?\)\s*$")
+R5_ARM = "{ Ok(__v) => __v, Err(__e) => return Err(From::from(__e)) }"
 
 
 def apply_rules(lines, report):
@@ -172,6 +175,27 @@ def apply_rules(lines, report):
             report.append({"rule": "R2", "original": l.strip(), "rewritten": new[0].strip()})
             i += 1
             continue
+        if l.strip() == "loop {":
+            ind = l[:len(l) - len(l.lstrip())]
+            out.append(("R1", [l], [ind + "loop", None]))   # header / invariants / brace, like R1
+            i += 1
+            continue
+        m = R5A.match(l)
+        if m:
+            ind, x, e = m.groups()
+            new = ["%slet %s = match %s %s;" % (ind, x, e, R5_ARM)]
+            out.append(("R5", [l], new))
+            report.append({"rule": "R5 (`?` desugared: Rust's documented Result desugaring)", "original": l.strip(), "rewritten": new[0].strip()})
+            i += 1
+            continue
+        m = R5B.match(l)
+        if m:
+            ind, e = m.groups()
+            new = ["%sOk(match %s %s)" % (ind, e, R5_ARM)]
+            out.append(("R5", [l], new))
+            report.append({"rule": "R5 (`?` desugared)", "original": l.strip(), "rewritten": new[0].strip()})
+            i += 1
+            continue
         if l.strip() == "optionally_unsafe! {" and i + 2 < len(lines) and lines[i + 2].strip() == "}":
             m3 = re.match(r"^\s*invariant!\((.*)\);\s*$", lines[i + 1])
             if m3:
@@ -191,10 +215,13 @@ def splice(items, annots, report):
     before/after/invariant (for an R1 loop header)/end.  Anchor = stripped first
     source line of the statement; must match exactly one original line."""
     def locate(anchor):
-        hits = [k for k, (rule, orig, new) in enumerate(items) if orig and orig[0].strip() == anchor]
-        if len(hits) != 1:
-            raise ExtractError("lost-anchor: %r matches %d lines" % (anchor, len(hits)))
-        return hits[0]
+        # alternatives `A ||| B`: the first alternative that matches exactly one line
+        # (lets one annotation file follow a function through a known repair)
+        for alt in [a.strip() for a in anchor.split("|||")]:
+            hits = [k for k, (rule, orig, new) in enumerate(items) if orig and orig[0].strip() == alt]
+            if len(hits) == 1:
+                return hits[0]
+        raise ExtractError("lost-anchor: %r matches no single line" % anchor)
     before, after, inv = {}, {}, {}
     endblk = []
     for kind, anchor, block in annots:
@@ -215,7 +242,8 @@ def splice(items, annots, report):
                 out += inv[k]
                 inserted += len(inv[k])
             out.append(orig[0][:len(orig[0]) - len(orig[0].lstrip())] + "{")
-            out.append(new[1])
+            if new[1] is not None:
+                out.append(new[1])
         else:
             if k in inv:
                 raise ExtractError("invariant anchor is not an R1 loop header")
